@@ -157,6 +157,7 @@ class StmtMixin:
     def set_hints(self, target, st):
         self.hint_elem = None
         self.hint_dict = None
+        self.hint_set = None
         t = None
         if isinstance(target, ast.Name):
             t = self.cur_contract.locals_types.get(target.id)
@@ -173,10 +174,13 @@ class StmtMixin:
                 self.hint_elem = t.args[0]
             if t.kind == "dict":
                 self.hint_dict = t
+            if t.kind == "set":
+                self.hint_set = t.args[0]
 
     def clear_hints(self):
         self.hint_elem = None
         self.hint_dict = None
+        self.hint_set = None
 
     def assign(self, target, v, st, ctx, node):
         if isinstance(target, ast.Name):
